@@ -444,6 +444,17 @@ def reachable_without(body, banned_edges=(), banned_blocks=(), start=0):
     return seen
 
 
+def site_alts(e):
+    """alternatives of a value kept apart by the *site* that produces them (flat_alts merges alternatives that
+    print the same, e.g. the same getter called before a loop and inside it)"""
+    if e.k == "phi":
+        return [y for c in e.a for y in site_alts(c)]
+    s = e.strip(keep_phi=True)
+    if s is e:
+        return [e]
+    return site_alts(s)
+
+
 def flat_alts(e):
     """alternatives of an expression: phi flattened, and Ok(phi(a|b)) / Some(phi(a|b)) distributed
     into Ok(a) | Ok(b) (a variant built around a join is the join of the variants)"""
